@@ -26,6 +26,7 @@ FLOORS = {"ref_retargets": {"quick": 500, "thorough": 8000}, "ref_target_ticks":
           "coll_ref_retarget_while_old_target_removes": {"quick": 15, "thorough": 250},
           "sibling_ref_retargets": {"quick": 150, "thorough": 2500}, "sibling_ref_unselected_ticks": {"quick": 150, "thorough": 2500},
           "coll_ref_republished_by_a_non_deduplicating_producer": {"quick": 150, "thorough": 2500},
+          "if_branch_selections": {"quick": 100, "thorough": 1500}, "if_condition_reticks_same_value": {"quick": 60, "thorough": 900},
           "getitem_retargets": {"quick": 60, "thorough": 900}, "getitem_target_ticks": {"quick": 60, "thorough": 900},
           "getitem_rebinds_after_key_appears": {"quick": 80, "thorough": 1200}, "getitem_cycles_with_absent_key": {"quick": 150, "thorough": 2000}}
 BATCH = 25
@@ -266,6 +267,73 @@ def check_getitem(case, tr):
     return res
 
 
+def gen_if_route(rng, name):
+    """stdlib if_(condition, ts): the stream is routed to one of two reference-shaped outputs; the branch that is not selected holds
+    an EMPTY reference. A reader of a branch runs when the branch becomes selected (it reads the stream's current value as
+    modified) and on the stream's ticks while selected; the condition re-ticking with the same truth value re-publishes both
+    references (this operator does not de-duplicate) and must not run anybody."""
+    from .prog import Case, S
+    end = rng.choice([30, 45])
+    c = Case(name, 0, end)
+    c.scripts[1] = [(t, 100 + t) for t in sorted(rng.sample(range(0, end), rng.choice([6, 12, 20])))]
+    v = rng.choice([0, 1])
+    cs = [(rng.choice([0, 1, 3]), v)]
+    for t in sorted(rng.sample(range(cs[0][0] + 1, end), rng.choice([4, 8, 12]))):
+        if rng.random() < 0.6:
+            v = 1 - v
+        cs.append((t, v))
+    c.scripts[3] = cs
+    c.graphs["main"] = [S("a", "src", uid=1, mode=1), S("c", "src", uid=3, mode=1), S("t", "ifroute", "c", "a", uid=4, branch="true"),
+                        S("f", "ifroute", "c", "a", uid=4, branch="false"), S("x", "pass", "t", uid=10), S("y", "pass", "f", uid=12),
+                        S("", "rec", "x", uid=11), S("", "rec", "y", uid=13)]
+    c.meta.update(kind="ifroute")
+    return c
+
+
+def check_if_route(case, tr):
+    res = Result(signature=case.text().split("\n", 1)[1])
+    run = tr.runs[0]
+    if tr.build_error or run.error:
+        res.violations.append(Violation(f"build/run failed: {tr.build_error or run.error}"))
+        return res
+    at, ct = dict(case.scripts[1]), dict(case.scripts[3])
+    got = {u: {ue.t: ue for ue in run.uevals() if ue.uid == u} for u in (10, 12)}
+    held, sel = None, None
+    V = []
+    selections = ticks = reticks = other = 0
+    for t in range(case.start, case.end):
+        if t in at:
+            held = at[t]
+        switched = False
+        if t in ct:
+            new = 10 if ct[t] != 0 else 12
+            switched = new != sel
+            reticks += 0 if switched else 1
+            sel = new
+        for u in (10, 12):
+            expect = u == sel and held is not None and (switched or t in at)
+            ue = got[u].get(t)
+            if expect != (ue is not None):
+                V.append(f"t={t}: reader of the {'true' if u == 10 else 'false'} branch of if_ {'did not run' if expect else 'ran'} (selected branch: "
+                         f"{'true' if sel == 10 else 'false' if sel == 12 else 'none'}, {'selected in this cycle' if switched else 'condition ' + ('re-ticked' if t in ct else 'quiet')}, "
+                         f"stream {'ticked' if t in at else 'did not tick'})")
+            elif ue is not None:
+                valid, mod, lmt, v = ue.ins[0]
+                if v != held or not mod:
+                    V.append(f"t={t}: reader of a branch of if_ reads (valid,modified,lmt,value)={ue.ins[0]}; the routed stream holds {held} and must read as modified")
+            if expect:
+                selections += 1 if switched else 0
+                ticks += 0 if switched else 1
+            elif t in at and u != sel:
+                other += 1
+    for m in V[:5]:
+        res.violations.append(Violation(m))
+    res.counters = {"if_branch_selections": selections, "if_selected_branch_ticks": ticks, "if_condition_reticks_same_value": reticks,
+                    "if_unselected_branch_quiet_ticks": other}
+    res.nontrivial = selections >= 2 and reticks >= 1
+    return res
+
+
 def gen_sibling_ref(rng, name):
     """Selection between two ELEMENTS OF ONE list output (same owning output, same schema): references to siblings."""
     from .prog import Case, S
@@ -341,6 +409,7 @@ def generate(rng, tier, seed):
     cases += [gen_sibling_ref(rng, f"c13_{seed}_sib{k}") for k in range(n // 5)]
     cases += [gen_relay_ref(rng, f"c13_{seed}_rly{k}") for k in range(n // 5)]
     cases += [gen_getitem_ref(rng, f"c13_{seed}_gi{k}") for k in range(n // 4)]
+    cases += [gen_if_route(rng, f"c13_{seed}_if{k}") for k in range(n // 6)]
     from .witness import f12_case
     cases.append(f12_case(f"c13_{seed}_witnessF12"))
     from .witness import f22_case
@@ -476,6 +545,8 @@ def check(case, tr):
         return check_relay(case, tr)
     if case.meta.get("kind") == "getitem":
         return check_getitem(case, tr)
+    if case.meta.get("kind") == "ifroute":
+        return check_if_route(case, tr)
     res = Result(signature=case.text().split("\n", 1)[1])
     if tr.build_error:
         res.violations.append(Violation(f"valid program rejected at build: {tr.build_error}"))
